@@ -32,9 +32,9 @@ cat "$LOG.suite" >> "$LOG"
 if [ $ok -ne 1 ]; then echo "RESULT $ID suite-fails-with-change"; grep -E "^(--- FAIL|FAIL|panic)" "$LOG.suite" | head; exit 1; fi
 mkdir -p "$DEMODIR"
 cp "$SRC/demo_test.go" "$DEMODIR/zz_demo_${ID//-/_}_test.go"
-if (eval "timeout 600 $DEMORUN") >>"$LOG" 2>&1; then echo "RESULT $ID demo-passes-with-change(should fail)"; exit 1; fi
+if (timeout 600 bash -c "$DEMORUN") >>"$LOG" 2>&1; then echo "RESULT $ID demo-passes-with-change(should fail)"; exit 1; fi
 git reset -q --hard HEAD >>"$LOG" 2>&1   # never `git stash`: the stash is shared by all worktrees (untracked demo file stays)
-if ! (eval "timeout 600 $DEMORUN") >>"$LOG" 2>&1; then echo "RESULT $ID demo-fails-without-change(should pass)"; tail -30 "$LOG"; exit 1; fi
+if ! (timeout 600 bash -c "$DEMORUN") >>"$LOG" 2>&1; then echo "RESULT $ID demo-fails-without-change(should pass)"; tail -30 "$LOG"; exit 1; fi
 if [ -n "${NO_STORE:-}" ]; then echo "RESULT $ID confirmed"; exit 0; fi
 mkdir -p /verif/seeded/$ID
 cp /tmp/wt/confirm-$ID.rebased.diff /verif/seeded/$ID/patch.diff
